@@ -336,6 +336,9 @@ pub const TOKENS: &[&str] = &[
     "\"a\"", "#\\a", "#\\space", "#\\x41", "\\x41;", "0", "9", "1e3", "#%", "|", "#", "\x0c", "\t", "\r",
     "#b1", "#o7", "#d9", "#xF", "-1", "+1", ".5", "1.", "1e", "1e+", "\\u0041", "\\N{U+41}", "\\101", "?\\^a",
     "?\\C-a", "#u8", "#v", "#n", "#ni", "(a . b)", " . ", "\0", "\x7f", "{", "}", "\\", "18446744073709551616",
+    "\"\\^a\"", "\"\\N{U+41}\"", "\"\\x41\\ \"", "\"\\101\"", "\"\\u00e9\"", "\"\\d\\e\\s\"", "\"\\U0001F600\"", "?\\u00e9", "?\\N{U+3bb}", "?\\x41", "?\\101", "?\\d",
+    "\"\\x41;\"", "\"\\a\\b\\f\\v\\|\"", "#\\nul", "#\\delete", "#\\x3bb", "#\\λ", "#:k", ":k", "k:", "#%k", "1e21", "-0.0", "+.x", "-.", "..", ".a", "#d1", "#e1", "1/2",
+    "\"λ\"", "'()", "#()", "[]", "#u8()", "#vu8(1 2)", "#u8(256)", "#u8(a)", ". a", "(. a)", "(a .)", "(a . b c)", "((", "))", "#;", "#|", "|a|",
 ];
 
 pub const RAW_BYTES: &[&[u8]] = &[b"\xce", b"\xbb", b"\xff", b"\xc0\x80", b"\xed\xa0\x80", b"\xf4\x90\x80\x80", b"\xe2\x82", b"\xf0\x9f\x98", b"\x80", b"\xf8"];
@@ -747,6 +750,69 @@ pub fn generate(family: &str, seed: u64, count: usize, emit: &mut dyn FnMut(Stri
                     }
                 }
                 emit(format!("pp {} {} {} {}", ro, fast_flag(), hex(&text), tab.join(" ")));
+            }
+        }
+        "escapes" => {
+            // every byte in every escape / character position, both string and char syntaxes
+            let ros = [R_DEFAULT, R_ELISP, "0011100100", "1101011010"];
+            let shapes: &[(&[u8], &[u8])] = &[
+                (b"\"\\", b"\""), (b"\"\\", b"41;\""), (b"\"a\\", b"1b\""), (b"?\\", b""), (b"?\\", b"41"), (b"?", b""), (b"?", b"a"),
+                (b"#\\", b""), (b"#\\", b"x"), (b"#\\x", b""), (b"#\\x4", b""), (b"\"\\x", b";\""), (b"\"\\x4", b";\""), (b"\"\\u00", b"0\""),
+                (b"\"\\N{U+", b"}\""), (b"\"\\N{U+4", b"\""), (b"\"\\^", b"\""), (b"?\\^", b""), (b"?\\N{U+4", b"}"), (b"\"\\1", b"\""), (b"?\\1", b""),
+                (b"\"\\U0000004", b"\""), (b"(a .", b"c)"), (b"-", b"x"), (b"+.", b""), (b"1", b""), (b"1.", b"5"), (b"1e", b"5"), (b"#", b""), (b"#", b"a"), (b"a", b"b"), (b",", b"a"),
+            ];
+            for b in 0..=255u8 {
+                for (pre, post) in shapes {
+                    let mut t = pre.to_vec(); t.push(b); t.extend_from_slice(post);
+                    for (k, ro) in ros.iter().enumerate() {
+                        if count >= 2 || (b as usize + k) % 2 == 0 {
+                            emit(parse_op("b", ro, "r:v:4", &t));
+                        }
+                        if (b as usize + k) % 4 == 0 {
+                            emit(parse_op("i1", ro, "r:d:4", &t));
+                            if std::str::from_utf8(&t).is_ok() { emit(parse_op("s", ro, "v1", &t)); }
+                        }
+                    }
+                }
+            }
+            // character names and their prefixes / extensions
+            for name in ["nul", "alarm", "backspace", "tab", "linefeed", "newline", "vtab", "page", "return", "esc", "space", "delete", "null", "escape", "del", "x", "x41", "xD800", "xD8000", "x110000", "x10FFFF", "x0", "x00000041", "x1000000", "xg", "λ", "t", "f"] {
+                for k in 0..=name.len() {
+                    if !name.is_char_boundary(k) { continue; }
+                    for tail in ["", " ", ")", "x", "#", "("] {
+                        let t = format!("#\\{}{}", &name[..k], tail);
+                        for ro in [R_DEFAULT, R_ELISP] { emit(parse_op("b", ro, "r:v:4", t.as_bytes())); }
+                    }
+                }
+            }
+        }
+        "numshort" => {
+            // every string of length <= 4 over the numeric alphabet (5 for count >= 2)
+            let alpha: &[u8] = b"019.eE+-#xba";
+            let maxlen = if count >= 2 { 5 } else { 4 };
+            let mut cur: Vec<Vec<u8>> = vec![vec![]];
+            for _ in 0..maxlen {
+                let mut next = Vec::new();
+                for w in &cur { for &c in alpha { let mut x = w.clone(); x.push(c); next.push(x); } }
+                for w in &next { emit(parse_op("b", R_DEFAULT, "v1", w)); }
+                cur = next;
+            }
+            for w in cur.iter().step_by(7) { emit(parse_op("b", "0011100001", "r:v:3", w)); }
+        }
+        "chars" => {
+            // print and round trip of every character up to U+2FF plus boundary scalars, alone, in a
+            // one-character string, symbol and as list / vector elements, default and Emacs pairs
+            let mut cps: Vec<u32> = (0..0x300).collect();
+            cps.extend([0x7ff, 0x800, 0xd7ff, 0xe000, 0xfffd, 0xfffe, 0xffff, 0x10000, 0x1f600, 0x10ffff, 0x2028, 0x3bb]);
+            for cp in cps {
+                let c = match char::from_u32(cp) { Some(c) => c, None => continue };
+                for (p, ro) in [(P_DEFAULT, R_DEFAULT), (P_ELISP, R_ELISP), ("2100110", "0011110100"), ("2100101", "0011101100")] {
+                    let vs = [Value::Char(c), Value::string(c.to_string()), Value::list(vec![Value::Char(c), Value::symbol("a")]), Value::Vector(vec![Value::string(format!("a{}b", c)), Value::Char(c)].into())];
+                    for v in &vs {
+                        emit(format!("rt {} {} {} {}", p, ro, fast_flag(), enc_value_text(v)));
+                    }
+                    if cp < 0x100 || cp % 16 == 0 { emit(format!("print {} {}", p, enc_value_text(&vs[1]))); }
+                }
             }
         }
         "deep" => {
